@@ -405,6 +405,8 @@ class Ctx:
             raise MachineryError(f"emission {module}/{cfg} wrote nothing")
         return read_ndjson(out)
 
+    last_notes = {}
+
     def tlc_validate(self, module, cfg, rows, name=None, env=None, **kw):
         """Trace validation of stateless obligations.  `rows` is the recorded trace (list of dicts, each with
         'oid').  The trace spec consumes one line per step, prints <<"VERDICT", oid, clause>> for every line it
@@ -422,6 +424,11 @@ class Ctx:
         bad = {}
         for m in re.finditer(r'<<\s*"VERDICT",\s*"([^"]+)",\s*"([^"]+)"\s*>>', out):   # TLC wraps long tuples over several lines
             bad[m.group(1)] = m.group(2)
+        # departures from the specification in behaviour the property does not constrain (never a violation)
+        for m in re.finditer(r'<<\s*"NOTE",\s*"([^"]+)",\s*"([^"]+)"\s*>>', out):
+            notes = self.cov.setdefault("spec_conformance_notes", {})
+            notes[m.group(2)] = notes.get(m.group(2), 0) + 1
+            self.last_notes[m.group(1)] = m.group(2)
         if not r["ok"]:
             raise MachineryError(f"trace validation {module}/{cfg} did not complete: {out[-2500:]}")
         m = re.search(r'<<\s*"CONSUMED",\s*(\d+)\s*>>', out)
@@ -493,8 +500,8 @@ class Ctx:
         self.cov["traces_validated_against_impl"] = before
         self.cov["tlc_runs"] = [r for r in self.cov["tlc_runs"] if r.get("cfg") != f"selftest_{module}"]
         missed = sorted({names[o] for o in names if o not in bad})
-        self.cov["binding_selftest"] = dict(corrupted_lines=len(rows), rejected=len([o for o in names if o in bad]),
-                                            fields=sorted(set(names.values())))
+        self.cov.setdefault("binding_selftest", {})[module] = dict(corrupted_lines=len(rows), rejected=len([o for o in names if o in bad]),
+                                                                   fields=sorted(set(names.values())))
         if missed:
             raise MachineryError(f"binding self-test: {module} accepted lines corrupted in {missed}")
 
